@@ -45,6 +45,10 @@ def variants(name, f):
     """{'default': {}, 'small': {...}, 'other': {...}} keyword overrides"""
     sig = inspect.signature(f)
     v = {'default': {}}
+    # a recursive moving average (EMA) wherever the indicator lets the caller choose the smoothing
+    mts = [p for p, d in sig.parameters.items() if p.endswith('matype') and isinstance(d.default, int)]
+    if mts:
+        v['ema-matype'] = {p: 1 for p in mts}
     if name in SMALL_OVERRIDE:
         if SMALL_OVERRIDE[name]:
             v['small'] = dict(SMALL_OVERRIDE[name])
@@ -131,13 +135,13 @@ def stems(n=300, base=100.0):
     cl = []
     c = base
     for i in range(n):
-        stretch = (40 <= i % 100 < 52) or (70 <= i % 100 < 76)
+        stretch = (40 <= i % 100 < 56) or (70 <= i % 100 < 76)
         if not stretch:
             c = c + (1.1 if (i * 7) % 5 < 3 else -1.3)
         cl.append(c)
     nt = build(cl, wick=0.4)
     for i in range(n):
-        if (40 <= i % 100 < 52) or (70 <= i % 100 < 76):
+        if (40 <= i % 100 < 56) or (70 <= i % 100 < 76):
             nt[i, 1] = nt[i, 2] = nt[i, 3] = nt[i, 4] = cl[i]
             nt[i, 5] = 0.0
     out['notrade'] = nt
